@@ -64,6 +64,23 @@ MANIFEST = {
     "design": "§6 C12",
 }
 
+_TMP = None
+
+
+def _tmpdir():
+    global _TMP
+    if _TMP is None:
+        import atexit, shutil, tempfile
+        _TMP = tempfile.mkdtemp(prefix="c12-")
+        pid = os.getpid()
+
+        def _rm(d=_TMP, pid=pid):
+            if os.getpid() == pid:
+                shutil.rmtree(d, ignore_errors=True)
+        atexit.register(_rm)
+    return _TMP
+
+
 CONTIG_SIZE = 16          # every contig is long enough for ids 0..15
 GENOMES = {
     3: ["chr1", "chr2", "chr3"],
@@ -368,7 +385,14 @@ def _call(c):
         b = ctx.iter_chromosomes(_mk_stream(st[1]), _table_class())
         return {"rows": [[_ids(x), _ids(y)] for x, y in zip(a, b)]}
     if op == "genome_mask":
-        gi = _genome(c).get_intervals(_mk_stream(st[0]))
+        if c.get("source") == "file":
+            fn = os.path.join(_tmpdir(), f"{core.case_hash(c)}-{os.getpid()}.bed")
+            with open(fn, "w") as fh:
+                for n, i in _entries(st[0]):
+                    fh.write(f"{n}\t{i}\t{i + 1}\n")
+            gi = _genome(c).read_intervals(fn, stream=True)
+        else:
+            gi = _genome(c).get_intervals(_mk_stream(st[0]))
         r = bnp.compute(gi.get_mask().get_data())
         chrom, pos = [], []
         for n, s, e in zip(_names_of(r.chromosome), r.start.tolist(), r.stop.tolist()):
@@ -379,7 +403,14 @@ def _call(c):
         r = _genome(c).get_intervals(_mk_stream(st[0])).compute()
         return {"flat": [int(x) for x in np.asarray(r.start).ravel()]}
     if op == "track":
-        t = _genome(c).get_track(_mk_stream(st[0], "bedgraph"))
+        if c.get("source") == "file":
+            fn = os.path.join(_tmpdir(), f"{core.case_hash(c)}-{os.getpid()}.bdg")
+            with open(fn, "w") as fh:
+                for n, i in _entries(st[0]):
+                    fh.write(f"{n}\t{i}\t{i + 1}\t{i + 1}\n")
+            t = _genome(c).read_track(fn, stream=True)
+        else:
+            t = _genome(c).get_track(_mk_stream(st[0], "bedgraph"))
         r = bnp.compute(t.get_data())
         chrom, pos = [], []
         for n, s, e, v in zip(_names_of(r.chromosome), r.start.tolist(), r.stop.tolist(), np.asarray(r.value).tolist()):
@@ -389,7 +420,30 @@ def _call(c):
         return {"out": _per_contig(c, chrom, pos)}
     from bionumpy.streams import MultiStream
     if op == "ms":
-        ms = MultiStream(_sizes(c), a=_mk_stream(st[0]))
+        opt = c.get("msopt") or {}
+        sizes = _sizes(c)
+        if opt.get("sizes") == "chromsize":
+            from bionumpy.datatypes import ChromosomeSize
+            sizes = ChromosomeSize(list(sizes.keys()), list(sizes.values()))
+        src = st[0]
+        if opt.get("keyfunc"):                         # the data carries the names without their 'chr' prefix
+            src = dict(src, groups=[[n[3:], ids] for n, ids in src["groups"]])
+        if opt.get("value") == "table":
+            ents = _entries(src)
+            a = _table_class()([n for n, _ in ents], np.array([i for _, i in ents], dtype=int), np.array([i + 1 for _, i in ents], dtype=int))
+        else:
+            a = _mk_stream(src)
+        kw = {"a": a}
+        if opt.get("indexed"):
+            kw["vals"] = {n: k for k, n in enumerate(c["names"])}
+        ms = MultiStream(sizes, **kw)
+        if opt.get("keyfunc"):
+            ms.set_key_functions(a=lambda x: "chr" + x)
+        if opt.get("default"):
+            ms.set_defaults(a=_table_class()(["chr1"], [99], [100]))
+        if opt.get("indexed"):
+            rows = list(zip(ms.a, ms.vals))
+            return {"out": [_ids(x) for x, _ in rows], "vals": [int(v) for _, v in rows]}
         return {"out": [_ids(t) for t in ms.a]}
     if op == "ms_zip":
         ms = MultiStream(_sizes(c), a=_mk_stream(st[0]), b=_mk_stream(st[1]))
@@ -454,8 +508,22 @@ def oracle(c):
     names_in_data = [n for s in st for n, _ in s["groups"]]
     for s in st:
         ns = [n for n, _ in s["groups"]]
-        if len(set(ns)) != len(ns) or any(not ids for _, ids in s["groups"]):
-            return SKIP                                # contiguity precondition / empty groups do not exist
+        if any(not ids for _, ids in s["groups"]) or any(a == b for a, b in zip(ns, ns[1:])):
+            return SKIP                                # empty groups / split groups do not exist
+        if len(set(ns)) != len(ns):
+            # a contig whose entries are NOT contiguous: outside the property's precondition in general (the group-by
+            # fast path trusts it inside a chunk); when every group sits in chunks of its own the repeated group is
+            # visible to the synchronisers, and then an error is demanded (nothing may be dropped silently)
+            bounds = list(itertools.accumulate(len(ids) for _, ids in s["groups"]))[:-1]
+            if op == "mem_pair" or c.get("source") == "file" or not set(bounds) <= set(s.get("cuts", [])):
+                return SKIP
+    opt = c.get("msopt") or {}
+    if opt.get("keyfunc") and any(not n.startswith("chr") for s in st for n, _ in s["groups"]):
+        return SKIP
+    if opt.get("value") == "table" and (not _entries(st[0]) or st[0].get("empty_at")):
+        return SKIP
+    if c.get("source") == "file" and not _entries(st[0]):
+        return SKIP
     if op == "mem_pair":
         if not _entries(st[0]):
             return SKIP                                # an empty in-memory table has no chromosome column to encode
@@ -473,6 +541,9 @@ def oracle(c):
     specs = [_spec_stream(order, ignored, s) for s in st]
     if any(s is None for s in specs):
         return {"err": "raised"}
+    if op == "ms" and opt:
+        out = [x if (x or not opt.get("default")) else [99] for x in specs[0]]
+        return dict({"out": out}, **({"vals": list(range(len(c["names"])))} if opt.get("indexed") else {}))
     if op in ("iter", "genome_mask", "track", "ms", "left_join"):
         return {"out": specs[0]}
     if op == "genome_compute":
@@ -498,9 +569,22 @@ def _strip(x):
     return x
 
 
+def _ms_view(c, x):
+    """what the Lean model (which knows neither the default table nor the indexed values) can say about an `ms` case"""
+    opt = c.get("msopt") or {}
+    if c["op"] == "ms" and opt and isinstance(x, dict) and "out" in x:
+        return {"out": [[] if (opt.get("default") and v == [99]) else v for v in x["out"]]}
+    return x
+
+
+def agree_spec(c, s, exp):
+    return core.canon(s) == core.canon(_ms_view(c, exp))
+
+
 def agree_model(c, got, m):
     if isinstance(got, dict) and got.get("err") == "raised":
         return isinstance(m, dict) and m.get("err") == "raised"
+    got = _ms_view(c, got)
     if c["op"] in ("jaccard", "forbes") and isinstance(m, dict) and "rows" in m:
         sizes = [CONTIG_SIZE + i for i in range(len(c["names"]))]
         rows = m["rows"]
@@ -587,6 +671,52 @@ DOUBLE = ["iter_zip", "ms_zip", "jaccard", "forbes"]
 
 
 def cases(tier, rng):
+    _tmpdir()
+    yield from _cases_main(tier, rng)
+    yield from _cases_round4(tier, rng)
+
+
+def _cases_round4(tier, rng):
+    big = tier in ("thorough", "widen")
+    contigs = ["chr1", "chr2", "chr3"]
+    # MultiStream variants: ChromosomeSize sizes, an in-memory table as value, key functions, defaults, a dict-like value
+    opts = [{"sizes": "chromsize"}, {"value": "table"}, {"keyfunc": True}, {"default": True}, {"indexed": True},
+            {"sizes": "chromsize", "value": "table", "keyfunc": True, "default": True, "indexed": True}]
+    for seq in _group_sequences(contigs + [UNK], 3):
+        groups = _with_ids(seq, rng)
+        n_e = sum(len(i) for _, i in groups)
+        for opt in (opts if big else rng.sample(opts, 3)):
+            cuts = rng.choice(_cut_sets(n_e, "quick", rng))
+            for key in ("id", "str"):
+                yield {"names": contigs, "filt": True, "op": "ms", "streams": [{"groups": groups, "cuts": cuts}], "msopt": opt, "key": key}
+        # read_intervals / read_track with stream=True from files
+        for op in ("genome_mask", "track"):
+            yield {"names": contigs, "filt": True, "op": op, "streams": [{"groups": groups, "cuts": []}], "source": "file"}
+            yield {"names": ["chr1", IGN, "chr2", "chr3"], "filt": rng.random() < 0.5, "op": op,
+                   "streams": [{"groups": groups, "cuts": []}], "source": "file"}
+    # a contig returning after other groups (entries not contiguous), every group in chunks of its own: an error is demanded
+    names = ["chr1", IGN, "chr2"]
+    pool = ["chr1", "chr2", IGN, UNK]
+    for k in (3, 4) if big else (3,):
+        for seq in itertools.product(pool, repeat=k):
+            if len(set(seq)) == len(seq) or any(a == b for a, b in zip(seq, seq[1:])):
+                continue
+            groups = _with_ids(seq, rng)
+            bounds = list(itertools.accumulate(len(i) for _, i in groups))[:-1]
+            n_e = sum(len(i) for _, i in groups)
+            cuts = sorted(set(bounds) | ({rng.randrange(1, n_e)} if rng.random() < 0.3 else set()))
+            s1 = {"groups": groups, "cuts": cuts}
+            for filt in (True, False):
+                for op in ("iter", "genome_mask", "track", "genome_compute"):
+                    yield {"names": names, "filt": filt, "op": op, "streams": [s1]}
+            for op in ("ms", "left_join"):
+                yield {"names": names, "filt": True, "op": op, "streams": [s1]}
+            other = {"groups": [], "cuts": []}
+            for op in DOUBLE:
+                yield {"names": names, "filt": True, "op": op, "streams": [other, s1]}
+
+
+def _cases_main(tier, rng):
     big = tier in ("thorough", "widen")
     # 0. the design-round expectations as plain cases
     base = {"names": ["chr1", "chr2"], "filt": True}
